@@ -147,6 +147,8 @@ impl Shared {
                 if stable >= 3 {
                     return;
                 }
+                // give tasks spawned onto worker threads (the lock release from Drop) time to start
+                tokio::time::sleep(std::time::Duration::from_millis(3)).await;
             } else {
                 stable = 0;
                 last = now;
